@@ -111,7 +111,7 @@ class C03Engine(Engine):
     assumptions = ['damage that makes a file undecodable as UTF-8 is outside the property ("any text") and is '
                    'not generated', 'which message or line number is reported is not judged',
                    'BackendException after a successful compile is not a C03 matter']
-    expected_probes = ['outcome_api', 'outcome_invalidspec', 'via_cli', 'via_stdin', 'lang_ref_snippet',
+    expected_probes = ['surely_invalid_input', 'outcome_api', 'outcome_invalidspec', 'via_cli', 'via_stdin', 'lang_ref_snippet',
                        'garbage_file', 'fault_fired']
 
     def prepare(self):
@@ -133,7 +133,8 @@ class C03Engine(Engine):
         toks = tokens(text)
         lines = text.split('\n')
         kind = tape.weighted([(16, 'torn'), (14, 'lost'), (10, 'dup'), (8, 'misdirected'), (10, 'reorder'),
-                              (18, 'bitrot'), (8, 'shear'), (8, 'literal'), (8, 'stray'), (12, 'swap-in')])
+                              (18, 'bitrot'), (8, 'shear'), (8, 'literal'), (8, 'stray'), (12, 'swap-in'),
+                              (8, 'illegal-char')])
         site = '-'
 
         def tok_at(pos):
@@ -208,6 +209,18 @@ class C03Engine(Engine):
                 site = 'line'
                 lines[i], lines[j] = lines[j], lines[i]
                 text = '\n'.join(lines)
+        elif kind == 'illegal-char':
+            # a character no token of the language can contain, placed outside strings and comments:
+            # whatever else is true of the text, it cannot be a valid spec any more
+            outside = [t_ for t_ in toks if t_[2] not in ('string', 'comment')]
+            if outside:
+                s0, e0, k0 = outside[tape.draw(len(outside))]
+                pos = s0 if tape.chance(50) else e0
+                inside_str = any((a < pos < b) or (c == 'comment' and a < pos <= b)
+                                 for a, b, c in toks if c in ('string', 'comment'))
+                if not inside_str:
+                    site = 'sure:' + k0
+                    text = text[:pos] + tape.choice(['\x00', '`', '~', ';', '$', '!', '&', '^', '|', '<', '>']) + text[pos:]
         elif kind == 'swap-in':
             # a token-sized misdirected write: a token is overwritten by a token of the same class
             # (identifier, number, string) from elsewhere in this or another file
@@ -345,6 +358,14 @@ class C03Engine(Engine):
             signal.signal(signal.SIGALRM, old)
         ev.append('outcome %s %s' % (outcome, detail if outcome not in ('api', 'invalidspec') else ''))
         res['steps'] += 1 + len(applied)
+        sure_invalid = (src == 'model' and not confused and len(applied) == 1
+                        and applied[0][0] == 'illegal-char' and str(applied[0][1]).startswith('sure:'))
+        if sure_invalid:
+            bump(res['probes'], 'surely_invalid_input')
+        if outcome == 'api' and sure_invalid:
+            res['violations'].append({'class': 'accepted-damaged', 'key': 'illegal-character:%s' % mode,
+                                      'detail': 'a character that no token can contain was inserted outside '
+                                                'strings and comments, yet compilation succeeded (%s)' % detail})
         if outcome == 'api':
             bump(res['probes'], 'outcome_api')
         elif outcome == 'invalidspec':
@@ -416,7 +437,8 @@ class C03Engine(Engine):
                 sizes = lambda: n  # noqa
                 argv = ['python_types', outdir, '--', '-p', 'pkg'] if tape.chance(50) else \
                     ['python_types', outdir, '-', '--', '-p', 'pkg']
-                paths = ['stdin.%d' % (i + 1) for i in range(len(stdin.split(b'namespace')) + 1)]
+                nspecs = max(1, len(re.findall(r'(?m)^namespace\b', stdin.decode('utf-8', 'replace'))))
+                paths = ['stdin.%d' % (i + 1) for i in range(nspecs)]
             else:
                 argv = ['python_types', outdir] + paths + ['--', '-p', 'pkg']
             os.chdir(scratch)
@@ -442,8 +464,7 @@ class C03Engine(Engine):
             ok = False
             for ln in lines:
                 m = re.match(r'^(?P<path>.*?):(?P<line>\d+|None): error: (?P<msg>.+)$', ln)
-                if m and (m.group('path') in paths or m.group('path') == 'None' or
-                          m.group('path').startswith('stdin.')):
+                if m and (m.group('path') in paths or m.group('path') == 'None'):
                     ok = True
                 if ln.startswith('You must fix the above parsing errors'):
                     ok = True
